@@ -69,6 +69,7 @@ func c06Grid() []lifeSc {
 		{0, 40, "users", "idle", "stalled", false},
 		{10, 40, "handler", "raw", "stalled", false},
 		{5, 50, "users", "idle", "burst", false},
+		{150, 0, "none", "gate", "reading", true}, // several buffers' worth of short inbound lines behind a handler
 	}
 	cfgs := []lifeSc{
 		{},
@@ -95,6 +96,9 @@ func c06Grid() []lifeSc {
 			sc.Cycles = 1
 			sc.Causes = cs
 			sc.Inbound, sc.InSegs = tr.in, []string{"one", "many"}[ti%2]
+			if tr.in >= 100 {
+				sc.InSegs = "one" // all of it inside the client's read buffer when the cause fires
+			}
 			sc.Outbound, sc.OutBy, sc.Users = tr.out, tr.by, 1+ti%4
 			sc.Handler, sc.Server, sc.GateLate = tr.handler, tr.server, tr.gateLate
 			sc.Reconnect = "none"
@@ -191,7 +195,7 @@ func runC06Failures(c *Ctx) {
 			continue
 		}
 		r := rig.Rand(c.Seed, "C06fail", idx)
-		kind := []string{"noserver", "refused", "refused-then-ok", "bad-proxy"}[idx%4]
+		kind := []string{"noserver", "refused", "refused-then-ok", "bad-proxy", "tls-handshake-fails", "tls-then-ok"}[idx%6]
 		c.J.Log("CASE %s %s", Case("fail", idx), kind)
 		lg := rig.NewLog()
 		s := NewSession(SessionOpts{Tracking: r.Intn(2) == 0, CtxAware: r.Intn(2) == 0, Flood: true, Log: lg})
@@ -209,6 +213,13 @@ func runC06Failures(c *Ctx) {
 			s.EP.RefuseNext(nil)
 		case "bad-proxy":
 			s.Cfg.Proxy = "verifmem://no-such-endpoint"
+		case "tls-handshake-fails", "tls-then-ok":
+			// the dial succeeds, the peer is not a TLS server
+			s.Cfg.SSL = true
+			s.EP.Prepare(func(mc *rig.MemConn) {
+				mc.SendBytes([]byte(":srv NOTICE * :this is not TLS\r\n"))
+				mc.SendEOF()
+			})
 		}
 		err := s.Conn.Connect()
 		c.R.Eval(1)
@@ -229,7 +240,11 @@ func runC06Failures(c *Ctx) {
 				viol("goroutines-after-failed-connect", fmt.Sprintf("%d library goroutines exist after a failed Connect", len(leak)))
 			}
 		}
-		if kind == "refused-then-ok" {
+		if kind == "tls-then-ok" {
+			s.Cfg.SSL = false
+			s.EP.Prepare(nil)
+		}
+		if kind == "refused-then-ok" || kind == "tls-then-ok" {
 			if err := s.Conn.Connect(); err != nil {
 				viol("retry-failed", "Connect after a refused dial failed: "+err.Error())
 			} else {
